@@ -273,3 +273,44 @@ func (s *Solver) Kill() {
 	s.cmd.Process.Kill()
 	s.cmd.Wait()
 }
+
+// Enumerate lists the values t can take under g (at most max); complete=false when there are more or the
+// solver gave up.
+func (s *Solver) Enumerate(tb *TB, g, t *Term, max int, timeoutMs int) (vals []uint64, complete bool) {
+	s.define(g)
+	s.define(t)
+	s.send("(push 1)")
+	defer func() { s.send("(pop 1)") }()
+	if !g.IsTrue() {
+		s.send("(assert " + g.ref() + ")")
+	}
+	for len(vals) <= max {
+		if timeoutMs > 0 && s.kind != "cvc5" {
+			s.send(fmt.Sprintf("(set-option :timeout %d)", timeoutMs))
+		}
+		s.send("(check-sat)")
+		s.in.Flush()
+		r := s.readLine()
+		for r == "" {
+			r = s.readLine()
+		}
+		s.nCheck++
+		if r == "unsat" {
+			return vals, true
+		}
+		if r != "sat" {
+			return vals, false
+		}
+		if t.IsConst() {
+			return []uint64{t.val}, true
+		}
+		m := s.Values([]*Term{t})
+		v, ok := m[t.ref()]
+		if !ok {
+			return vals, false
+		}
+		vals = append(vals, v)
+		s.send(fmt.Sprintf("(assert (not (= %s (_ bv%d %d))))", t.ref(), v, t.w))
+	}
+	return vals, false
+}
